@@ -12,6 +12,7 @@ import (
 	"io"
 	"io/ioutil"
 	"math/rand"
+	"strings"
 	"sync"
 
 	hccrypto "github.com/brutella/hc/crypto"
@@ -280,6 +281,90 @@ func secchanFamily(a *Args) error {
 					n2++
 				}
 				lines = append(lines, J{"ev": "stream", "case": b.ID, "i": len(wire) - 1, "v": v, "level": "frames", "wire": wire, "nrel": n2, "relok": ok2, "err": anyErr, "offs": offs, "okend": okEnd2})
+			}
+		}
+		// delivery through a real hap.Connection (what the HTTP server reads from): the whole stream arrives, the server
+		// reads until the connection ends, and goes on reading after an error (nothing may come out any more)
+		{
+			var stream []byte
+			offs := []int{}
+			for _, it := range wire {
+				fr := mat[it.Sess+"/"+it.Dir].wire[it.Idx-1]
+				switch it.Alt {
+				case "len", "ct", "tag":
+					fr = flipField(fr, it.Alt, rng.Intn(1<<20))
+				case "cut":
+					fr = fr[:1+rng.Intn(len(fr)-1)]
+				case "zero":
+					fr = make([]byte, 18)
+					rng.Read(fr[2:])
+				}
+				offs = append(offs, len(stream))
+				stream = append(stream, fr...)
+				if it.Alt == "cut" {
+					break
+				}
+			}
+			for len(offs) < len(wire) {
+				offs = append(offs, len(stream))
+			}
+			sc := newScriptConn()
+			if hcConn, err := encryptedConnection(sc, secrets[0]); err == nil {
+				sc.deliver(stream)
+				sc.Close()
+				var rel []byte
+				anyErr := false
+				ends := 0
+				buf := make([]byte, 4096)
+				for k := 0; k < len(wire)+6 && ends < 3; k++ {
+					n, rerr := func() (n int, err error) {
+						defer func() {
+							if r := recover(); r != nil {
+								err = fmt.Errorf("panic: %v", r)
+							}
+						}()
+						return hcConn.Read(buf)
+					}()
+					if n > 0 {
+						rel = append(rel, buf[:n]...)
+					}
+					if rerr != nil {
+						if rerr == io.EOF || strings.Contains(rerr.Error(), "closed") {
+							ends++ // the end of the stream
+						} else {
+							anyErr = true
+						}
+					}
+				}
+				// a stream that ends inside a frame is an error as well (the read of that frame never completes)
+				pos := 0
+				for pos+2 <= len(stream) {
+					end := pos + 2 + int(binary.LittleEndian.Uint16(stream[pos:])) + 16
+					if end > len(stream) {
+						break
+					}
+					pos = end
+				}
+				if pos < len(stream) {
+					anyErr = true
+				}
+				sent := mat["this/fwd"].plain
+				n4, ok4 := 0, true
+				rest := rel
+				for len(rest) > 0 {
+					if n4 >= len(sent) || len(rest) < len(sent[n4]) || !bytes.Equal(rest[:len(sent[n4])], sent[n4]) {
+						ok4 = false
+						break
+					}
+					rest = rest[len(sent[n4]):]
+					n4++
+				}
+				okEnd4 := len(stream)
+				if n4 < len(offs) {
+					okEnd4 = offs[n4]
+				}
+				lines = append(lines, J{"ev": "stream", "case": b.ID, "i": len(wire) - 1, "v": 0, "level": "conn", "wire": wire, "nrel": n4, "relok": ok4, "err": anyErr, "offs": offs, "okend": okEnd4})
+				hcConn.Close()
 			}
 		}
 		// third delivery: a cut does not end the attack. The items up to and including a cut frame arrive in one piece (and
